@@ -6,25 +6,27 @@ hooks = subprocess.run(['git', '-C', '/repo', 'log', '--format=%H %s'], stdout=s
 hook_commits = [l.split()[0] for l in hooks if 'verif hook' in l]
 
 MC_NOTE = ('Trusted base: the exploration runtime engine/rt.c (own TSan-ABI runtime, fibers, scheduler, futex/clock/allocator models), gcc\'s -fsanitize=thread instrumentation as the hook mechanism, '
-           'the scenario harness and its oracle for this property. Bounded: thread counts, operations per thread, preemption budget P and environment budget E as listed in the evidence; sequentially consistent interleavings only.')
+           'the scenario harness and its oracle for this property. Bounded: thread counts, operations per thread, preemption budget P and environment budget E as listed in the evidence; sequentially consistent interleavings only. '
+           'Threads are interrupted at atomic operations, futex calls and yields; unsynchronised plain accesses between such points are covered by a separate stateless race pass of the same programs under the happens-before monitor (coverage.race_pass; not for C03, which is that monitor, nor C12/C16/C19). '
+           'Thorough tiers go on to re-explore their programs with larger preemption budgets while time is left (coverage.iterated_bound).')
 P = {
- 'C01': ('model_checking', 'Every schedule (within P/E budgets) of lock/rlock/trylock/rtrylock, cv waits (plain, timed, cancelled, generic, wait_n), mu_wait and their wakers on one mutex is executed on the real code; shadow occupancy asserted at every acquisition, at harness level and at nsync\'s own acquisition annotations; both semaphore flavours.', '7 C01', 'bounded exhaustive schedule exploration of the implementation (stateful DFS) + shadow-occupancy invariant'),
+ 'C01': ('model_checking', 'Every schedule (within P/E budgets) of lock/rlock/trylock/rtrylock, cv waits (plain, timed, cancelled, generic, wait_n), mu_wait and their wakers on one mutex, and of starved lockers with the long-wait threshold reduced, is executed on the real code; shadow occupancy asserted at every acquisition, at harness level and at nsync\'s own acquisition annotations; both semaphore flavours.', '7 C01', 'bounded exhaustive schedule exploration of the implementation (stateful DFS) + shadow-occupancy invariant'),
  'C02': ('model_checking', 'All schedules of 2-4 lockers (2 threads: up to unbounded preemptions in thorough) on the real mu.c and semaphore; any terminal state with an unfinished thread is a lost wake-up; try-locks must not block.', '7 C02', 'bounded exhaustive schedule exploration + terminal-state (deadlock / lost wake-up) detection'),
  'C03': ('model_checking', 'Stateless exploration of a core set of hand-off programs on all three atomic.h flavours with a vector-clock happens-before monitor that credits only the declared memory orders (C++20 release sequences), also with the semaphore\'s own orders downgraded to relaxed.', '4, 7 C03', 'bounded exhaustive schedule exploration (stateless) + vector-clock happens-before monitor over declared memory orders'),
  'C04': ('model_checking', 'All schedules and deadline placements of cv waiters of every kind against signallers/broadcasters; wake-up accounting by an observer at quiescence.', '7 C04', 'bounded exhaustive schedule + clock exploration, accounting oracle at quiescence'),
  'C05': ('model_checking', 'All orders of deadline vs note expiry vs wake-up for cv and mu timed/cancellable waits; result, reason and lock mode checked on every return; expired/cancelled waits never asleep at quiescence.', '7 C05', 'bounded exhaustive schedule + clock exploration, per-return oracle'),
  'C06': ('model_checking', 'All schedules of 2-4 conditional waiters with same/equivalent/different conditions, reader and writer mode, timeouts and cancellations removing waiters from the middle of the queue, cv waiters on the same mutex; obligation rule at quiescence; every condition evaluation checked for exclusion.', '7 C06', 'bounded exhaustive schedule exploration, obligation oracle at quiescence'),
- 'C07': ('model_checking', 'All schedules of 2-4 callers mixing the four run_once entry points, two once objects sharing an internal slot, timer polling driven by virtual clock ticks.', '7 C07', 'bounded exhaustive schedule + clock exploration'),
+ 'C07': ('model_checking', 'All schedules of 2-4 callers mixing the four run_once entry points, two once objects sharing an internal slot (also nested and dependent initialisers), timer polling driven by virtual clock ticks.', '7 C07', 'bounded exhaustive schedule + clock exploration'),
  'C08': ('model_checking', 'Exhaustive enumeration of every tree of <=4 notes x deadline assignment (expiry, initial state, each single notify, final states), plus all schedules of notifiers/pollers/waiters with per-note observation histories.', '7 C08', 'exhaustive enumeration of trees x deadlines + bounded exhaustive schedule exploration with history oracle'),
- 'C09': ('model_checking', 'All schedules of notify/poll/create-child/free on a parent-child-grandchild family, with every access checked against freed (poisoned, never reused) memory, progress, and adoption at the end.', '7 C09', 'bounded exhaustive schedule exploration + memory-liveness monitor'),
+ 'C09': ('model_checking', 'All schedules of notify/poll/create-child/free (children created concurrently and freed after their parent included) on a parent-child-grandchild family, with every access checked against freed (poisoned, never reused) memory, progress, and adoption at the end.', '7 C09', 'bounded exhaustive schedule exploration + memory-liveness monitor'),
  'C10': ('model_checking', 'All schedules of add/value/wait (also through wait_n); brute-force linearizability of the returned values against an integer.', '7 C10', 'bounded exhaustive schedule exploration + brute-force linearizability check'),
  'C11': ('model_checking', 'All schedules and deadline placements of 1-2 wait_n callers over 1-5 objects (stack and heap bookkeeping) against notifiers/decrementers/signallers; readiness, timeout, clean-up and mutex-protocol oracles.', '7 C11', 'bounded exhaustive schedule + clock exploration'),
  'C12': ('model_checking', 'Complete interleavings (no preemption bound) of one waiter and 1-3 posters on nsync_semaphore_futex.c with every placement of up to k injected EINTR/EAGAIN/early-ETIMEDOUT returns.', '7 C12', 'complete interleaving exploration + fault injection enumeration on a futex model'),
  'C13': ('model_checking', 'All schedules of the reference-count pattern and of wakers against wait_n / cancellable waits; every instrumented access, atomic and futex argument checked against freed blocks and dead stack frames.', '7 C13', 'bounded exhaustive schedule exploration + memory-liveness monitor'),
- 'C14': ('model_checking', 'All schedules (P<=2..3) of a victim and 2-3 bargers with LONG_WAIT_THRESHOLD reduced to 1..3 through the guarded hook; overtaking oracle at nsync\'s own acquisition events; and at the real threshold 30, fifteen scripted adversarial strategies (a fresh thread takes the mutex in every window between the victim\'s wake-up and its next attempt) with all single deviations from them.', '7 C14', 'bounded exhaustive schedule exploration with reduced threshold'),
+ 'C14': ('model_checking', 'All schedules (P<=2..3) of one or two victims and 1-3 bargers with LONG_WAIT_THRESHOLD reduced to 1..3 through the guarded hook; overtaking oracle at nsync\'s own acquisition events; and at the real threshold 30, fifteen scripted adversarial strategies (a fresh thread takes the mutex in every window between the victim\'s wake-up and its next attempt) with all single deviations from them.', '7 C14', 'bounded exhaustive schedule exploration with reduced threshold'),
  'C15': ('exploration', 'Complete table entry point x boundary deadline x event state x {C, C++} on the real futex, clock and kernel, each case in a forked child.', '7 C15', 'exhaustive enumeration of a finite case table on the real platform'),
  'C16': ('model_checking', 'All schedules of lockers/waiters/wakers with a thread calling the debug-state functions (all C01/C02/C04 oracles in force), and every n in 0..80 x 0..3 queued waiters x 4 functions against the untruncated reference with exact-size buffers.', '7 C16', 'bounded exhaustive schedule exploration + exhaustive enumeration of buffer sizes'),
- 'C17': ('model_checking', 'Breadth-first search over ALL reachable abstract states of 5 (thorough: 6) elements and 2 lists; every applicable operation from every state executed by the real dll.c; traversals, links and predicted canonical state compared after every step.', '7 C17', 'explicit-state BFS with a reference model; every transition executed on the implementation'),
+ 'C17': ('model_checking', 'Breadth-first search over ALL reachable abstract states of 5 (thorough: 7) elements and 2 lists; every applicable operation from every state executed by the real dll.c; traversals, links and predicted canonical state compared after every step.', '7 C17', 'explicit-state BFS with a reference model; every transition executed on the implementation'),
  'C18': ('exploration', 'Complete boundary grid against __int128 arithmetic for both builds; thorough: all 2^32 arguments of nsync_time_ms and nsync_time_us.', '7 C18', 'exhaustive enumeration of a boundary grid / the full 32-bit argument space'),
  'C19': ('fault_enumeration', 'For every scenario shape each allocation of the constructors is failed in turn (sequentially, and with a concurrent user of the parent under schedule exploration); NULL result, untouched parent and continued usability are checked.', '7 C19', 'fault enumeration (fail the k-th allocation for every k) + bounded schedule exploration'),
 }
